@@ -69,7 +69,7 @@ Proof.
     split; [split; [intros []|intros [? ?]; lia]|].
     split; [intros b0; split; [intros []|intros [? ?]; congruence]|exact N0]. }
   unfold step. destruct (result s) eqn:R; [|cbn [fst snd]; apply TRIV; exact ND].
-  destruct a as [id ok|id|b e| |]; cbn [fresh_add] in FR.
+  destruct a as [id ok|id|b e rl| |]; cbn [fresh_add] in FR.
   - destruct ok; cbn [negb]; [|cbn [fst snd]; apply TRIV; exact ND].
     apply memz_false in FR. rewrite FR. cbn [length fst snd enq set_vals vals idle].
     assert (NoDup (id :: vals s)) as ND' by (constructor; [apply memz_false; exact FR|exact ND]).
@@ -109,7 +109,7 @@ Proof.
       * intros [_ H]. subst. left; reflexivity.
   - destruct (disposed s); cbn [fst snd vals idle]; apply (TRIV s ND).
   - destruct (negb (woken s)); [cbn [fst snd]; apply (TRIV s ND)|].
-    destruct (idle s && res_err s); cbn [fst snd vals idle]; apply (TRIV s ND).
+    destruct (idle s && res_err s && res_real s); cbn [fst snd vals idle]; apply (TRIV s ND).
 Qed.
 
 (* ---- Exists / Removed alternate, starting with Exists ---- *)
@@ -118,7 +118,7 @@ Lemma step_alt s a X :
   alt (isz (fst (step s a))) X -> alt (isz s) (er_proj (snd (step s a)) ++ X).
 Proof.
   intros ND FR. unfold step, isz. destruct (result s) eqn:R; [|cbn; auto].
-  destruct a as [id ok|id|b e| |]; cbn [fresh_add] in FR.
+  destruct a as [id ok|id|b e rl| |]; cbn [fresh_add] in FR.
   - destruct ok; cbn [negb]; [|cbn; auto].
     apply memz_false in FR. rewrite FR. cbn [length fst snd enq set_vals vals].
     destruct (vals s) as [|v0 vs]; cbn [length Nat.eqb er_proj app alt]; [auto|].
@@ -133,7 +133,7 @@ Proof.
     assert (vals s1 = vals s) as V1 by (unfold s1; destruct (negb (res_err s) && e); auto).
     destruct (Bool.eqb b (idle s1)); cbn [fst snd enq vals er_proj app]; rewrite V1; auto.
   - destruct (disposed s); cbn; auto.
-  - destruct (negb (woken s)); [cbn; auto|]. destruct (idle s && res_err s); cbn; auto.
+  - destruct (negb (woken s)); [cbn; auto|]. destruct (idle s && res_err s && res_real s); cbn; auto.
 Qed.
 
 Lemma step_nodup s a : NoDup (vals s) -> fresh_add s a -> NoDup (vals (fst (step s a))).
@@ -179,7 +179,7 @@ Lemma step_idle_alt s a X :
   alt (negb (idle (fst (step s a)))) X -> alt (negb (idle s)) (idle_proj (snd (step s a)) ++ X).
 Proof.
   unfold step. destruct (result s); [|cbn; auto].
-  destruct a as [id ok|id|b e| |].
+  destruct a as [id ok|id|b e rl| |].
   - destruct ok; cbn [negb]; [|cbn; auto].
     cbn [fst snd enq set_vals idle]. destruct (Nat.eqb _ 1); cbn; auto.
   - destruct (memz id (vals s)); cbn [negb]; [|cbn; auto].
@@ -191,7 +191,7 @@ Proof.
     assert (b = negb (idle s)) as Eb by (destruct b, (idle s); cbn; congruence).
     split; [exact Eb|rewrite <- Eb; exact H].
   - destruct (disposed s); cbn; auto.
-  - destruct (negb (woken s)); [cbn; auto|]. destruct (idle s && res_err s); cbn; auto.
+  - destruct (negb (woken s)); [cbn; auto|]. destruct (idle s && res_err s && res_real s); cbn; auto.
 Qed.
 
 Lemma run_idle_alt l : forall s, alt (negb (idle s)) (idle_proj (snd (run s l))).
@@ -214,7 +214,7 @@ Lemma step_sent s a :
 Proof.
   unfold step. destruct (result s) eqn:R.
   2:{ cbn. exists (queue s). rewrite app_nil_r. auto. }
-  destruct a as [id ok|id|b e| |].
+  destruct a as [id ok|id|b e rl| |].
   - destruct ok; cbn [negb].
     + cbn [fst snd enq set_vals sent queue result]. eexists; split; [reflexivity|auto].
     + cbn. exists (queue s). rewrite app_nil_r. auto.
@@ -229,7 +229,7 @@ Proof.
     + eexists; split; [reflexivity|auto].
   - destruct (disposed s); cbn; exists (queue s); rewrite app_nil_r; auto.
   - destruct (negb (woken s)); [cbn; exists (queue s); rewrite app_nil_r; auto|].
-    destruct (idle s && res_err s); cbn [fst snd sent queue result].
+    destruct (idle s && res_err s && res_real s); cbn [fst snd sent queue result].
     + exists (queue s). rewrite app_nil_r. split; [reflexivity|]. intros H; contradiction.
     + exists []. rewrite !app_nil_r. auto.
 Qed.
@@ -274,7 +274,7 @@ Lemma step_wake_inv s a : wake_inv s -> wake_inv (fst (step s a)).
 Proof.
   intros [I1 [I2 I3]]. unfold step. destruct (result s) eqn:R; [|cbn [fst]; unfold wake_inv; rewrite R; auto].
   specialize (I1 eq_refl). specialize (I2 eq_refl).
-  destruct a as [id ok|id|b e| |].
+  destruct a as [id ok|id|b e rl| |].
   - destruct ok; cbn [negb fst]; [|unfold wake_inv; rewrite R; auto].
     destruct (Nat.eqb _ 1); unfold wake_inv; cbn; rewrite ?R, ?app_nil_r;
       (split; [|split]); auto; try (intros H; contradiction).
@@ -286,7 +286,7 @@ Proof.
   - destruct (disposed s) eqn:D; cbn [fst]; unfold wake_inv; cbn; rewrite ?R, ?D;
       (split; [|split]); auto; try (intros H; contradiction).
   - destruct (woken s) eqn:W; cbn [negb fst]; [|unfold wake_inv; rewrite R, W; auto].
-    destruct (idle s && res_err s); unfold wake_inv; cbn.
+    destruct (idle s && res_err s && res_real s); unfold wake_inv; cbn.
     + split; [discriminate|]. split; [discriminate|reflexivity].
     + destruct (disposed s) eqn:D.
       * split; [discriminate|]. split; [discriminate|reflexivity].
@@ -343,7 +343,7 @@ Lemma step_last_er s a :
   last_er (negb (isz s)) (snd (step s a)) = negb (isz (fst (step s a))).
 Proof.
   intros ND FR. unfold step, isz. destruct (result s) eqn:R; [|reflexivity].
-  destruct a as [id ok|id|b e| |]; cbn [fresh_add] in FR.
+  destruct a as [id ok|id|b e rl| |]; cbn [fresh_add] in FR.
   - destruct ok; cbn [negb]; [|reflexivity].
     apply memz_false in FR. rewrite FR. cbn [length fst snd enq set_vals vals].
     destruct (vals s) as [|v0 vs]; cbn [length Nat.eqb last_er negb]; [reflexivity|].
@@ -357,7 +357,7 @@ Proof.
     assert (vals s1 = vals s) as V1 by (unfold s1; destruct (negb (res_err s) && e); auto).
     destruct (Bool.eqb b (idle s1)); cbn [fst snd enq vals last_er]; rewrite V1; reflexivity.
   - destruct (disposed s); reflexivity.
-  - destruct (negb (woken s)); [reflexivity|]. destruct (idle s && res_err s); reflexivity.
+  - destruct (negb (woken s)); [reflexivity|]. destruct (idle s && res_err s && res_real s); reflexivity.
 Qed.
 
 Lemma run_last_er l : forall s,
@@ -375,7 +375,7 @@ Qed.
 Lemma step_last_idle s a : last_idle (idle s) (snd (step s a)) = idle (fst (step s a)).
 Proof.
   unfold step. destruct (result s); [|reflexivity].
-  destruct a as [id ok|id|b e| |].
+  destruct a as [id ok|id|b e rl| |].
   - destruct ok; cbn [negb]; [|reflexivity]. cbn [fst snd enq set_vals idle]. destruct (Nat.eqb _ 1); reflexivity.
   - destruct (memz id (vals s)); cbn [negb]; [|reflexivity]. cbn [fst snd enq set_vals idle]. destruct (Nat.eqb _ 0); reflexivity.
   - set (s1 := if negb (res_err s) && e then _ else s).
@@ -383,7 +383,7 @@ Proof.
     destruct (Bool.eqb b (idle s1)) eqn:E; cbn [fst snd enq idle last_idle]; [|reflexivity].
     apply eqb_prop in E. congruence.
   - destruct (disposed s); reflexivity.
-  - destruct (negb (woken s)); [reflexivity|]. destruct (idle s && res_err s); reflexivity.
+  - destruct (negb (woken s)); [reflexivity|]. destruct (idle s && res_err s && res_real s); reflexivity.
 Qed.
 
 Lemma run_last_idle l : forall s, last_idle (idle s) (snd (run s l)) = idle (fst (run s l)).
@@ -414,8 +414,44 @@ Theorem drain_quiesces s : woken (fst (step s Drain)) = false \/ result (fst (st
 Proof.
   unfold step. destruct (result s) eqn:R; [|right; cbn; rewrite R; discriminate].
   destruct (woken s) eqn:W; cbn [negb]; [|left; exact W].
-  destruct (idle s && res_err s); left; reflexivity.
+  destruct (idle s && res_err s && res_real s); left; reflexivity.
 Qed.
+
+(* the call ends with the resolver's error only when the directive is idle with a real
+   (non-cancellation) first resolver error *)
+Definition err_end_ok (s : st) : Prop :=
+  result s = 1%nat -> idle s = true /\ res_err s = true /\ res_real s = true.
+
+Lemma step_err_end s a : err_end_ok s -> err_end_ok (fst (step s a)).
+Proof.
+  intros I. unfold step. destruct (result s) eqn:R; [|cbn [fst]; exact I].
+  destruct a as [id ok|id|b e rl| |].
+  - destruct ok; cbn [negb fst]; [|exact I]. destruct (Nat.eqb _ 1); unfold err_end_ok; cbn; rewrite ?R; discriminate.
+  - destruct (memz id (vals s)); cbn [negb fst]; [|exact I].
+    destruct (Nat.eqb _ 0); unfold err_end_ok; cbn; rewrite ?R; discriminate.
+  - destruct (negb (res_err s) && e); cbn [idle]; destruct (Bool.eqb b (idle s));
+      unfold err_end_ok; cbn; rewrite ?R; try discriminate.
+  - destruct (disposed s); cbn [fst]; [exact I|]. unfold err_end_ok; cbn; rewrite ?R; discriminate.
+  - destruct (negb (woken s)); cbn [fst]; [exact I|].
+    destruct (idle s && res_err s && res_real s) eqn:C; unfold err_end_ok; cbn.
+    + intros _. apply andb_true_iff in C as [C C3]. apply andb_true_iff in C as [C1 C2]. auto.
+    + destruct (disposed s); discriminate.
+Qed.
+
+Theorem error_end_sound l : err_end_ok (fst (run init l)).
+Proof.
+  assert (forall l s, err_end_ok s -> err_end_ok (fst (run s l))) as G.
+  { clear l. induction l as [|a l IH]; intros s I; cbn [run]; [exact I|].
+    pose proof (step_err_end s a I) as I1. destruct (step s a) as [s1 o1]. cbn [fst] in I1.
+    specialize (IH s1 I1). destruct (run s1 l) as [s2 o2]. exact IH. }
+  apply G. unfold err_end_ok; cbn; discriminate.
+Qed.
+
+(* and when it is idle with such an error, the next send-loop iteration ends the call with it *)
+Lemma drain_returns_error s :
+  result s = 0%nat -> woken s = true -> idle s = true -> res_err s = true -> res_real s = true ->
+  result (fst (step s Drain)) = 1%nat.
+Proof. intros R W I E Rl. unfold step. rewrite R, W, I, E, Rl. reflexivity. Qed.
 
 (* ---- component id round trip ---- *)
 Lemma varint_dec_small b x : 0 <= b < 128 -> varint_dec (b :: x) = VOk b 1.
